@@ -3,6 +3,7 @@ package main
 // Evaluation of contract expressions to SMT terms in a symbolic state.
 
 import (
+	"go/token"
 	"fmt"
 	"os"
 	"go/constant"
@@ -973,6 +974,27 @@ func (fc *FnCtx) resolveLocal(name string, at *ssa.BasicBlock, atInstr ssa.Instr
 		if p.Name() == name {
 			if v, ok := fc.vals[p]; ok {
 				return v, true
+			}
+		}
+	}
+	// the index variable of a range loop, asked for at the loop head (an invariant
+	// written for `for i := 0; i < n; i++`): there it is rangeindex + 1, the index
+	// the next iteration will use = the number of completed iterations
+	if at != nil {
+		for _, r := range refs {
+			bo, ok := r.X.(*ssa.BinOp)
+			if !ok || bo.Op != token.ADD {
+				continue
+			}
+			phi, ok := bo.X.(*ssa.Phi)
+			c, isC := bo.Y.(*ssa.Const)
+			if !ok || !isC || phi.Comment != "rangeindex" || c.Int64() != 1 {
+				continue
+			}
+			if phi.Block() == at || phi.Block().Dominates(at) {
+				if pv, have := fc.vals[phi]; have {
+					return SV{Typ: r.X.Type(), T: []Term{mkAdd(pv.one(), "1")}}, true
+				}
 			}
 		}
 	}
